@@ -152,4 +152,9 @@ func init() {
 
 	mut("C06", "commitTo reports the result of Close instead of the failure", "aspen/internal/kv/tx.go",
 		"			err = errors.Combine(err, b.Close())", "			err = b.Close()", "C06.ERR")
+
+	mut("C11", "the juror looks recorded keys up by binary search", "aspen/internal/cluster/pledge/pledge.go",
+		"slices.Contains(j.approvals, req.Key)", "func() bool { _, ok := slices.BinarySearch(j.approvals, req.Key); return ok }()", "C11.R6.search")
+	mut("C11", "the pledging node records the cluster key on a copy of its configuration", "aspen/internal/cluster/pledge/pledge.go",
+		"				cfg.ClusterKey = res.ClusterKey\n				return res, arbitrate(cfg)", "				withKey := cfg\n				withKey.ClusterKey = res.ClusterKey\n				return res, arbitrate(cfg)", "C11.R5.clusterkey")
 }
